@@ -147,8 +147,8 @@ def store_corpus(c, kind, pa, pb):
     obj = {"cat": c["cat"], "canon": c["canon"], "inputs": c["inputs"], "kind": kind, "perm_a": list(pa), "perm_b": list(pb)}
     h = hashlib.sha1(json.dumps(obj, sort_keys=True).encode()).hexdigest()[:10]
     same = [p for p in CORPUS_DIR.glob("*.json") if json.loads(p.read_text()).get("cat") == c["cat"]]
-    if len(same) < 3:   # a few minimal representatives per category are enough
-        (CORPUS_DIR / f"{c['cat']}-{h}.json").write_text(json.dumps(obj, indent=1))
+    if len(same) < 2:   # a few minimal representatives per category are enough
+        (CORPUS_DIR / f"{c['cat'].replace(':', '_').replace('+', '_')}-{h}.json").write_text(json.dumps(obj, indent=1))
 
 
 def shrink_case(pool, c, kind, pa, pb):
@@ -349,8 +349,8 @@ def run(ctx):
         exh = 6 if thorough else 4
         valid = [c for c in cases if c["cat"].startswith("shape") or c["cat"] == "decorated"]
         ctx.rng.shuffle(valid)
-        small = [c for c in valid if len(c["canon"]) <= 3][:(300 if thorough else 8)]
-        mid = [c for c in valid if len(c["canon"]) == 4][:(200 if thorough else 4)]
+        small = [c for c in valid if len(c["canon"]) <= 3][:(300 if thorough else 6)]
+        mid = [c for c in valid if len(c["canon"]) == 4][:(200 if thorough else 3)]
         big = [c for c in valid if len(c["canon"]) >= 5][:(40 if thorough else 2)]
         kcases = small + mid + big + [c for c in directed_cases()] + local
         for c in kcases:
